@@ -132,7 +132,7 @@ Inputs:
     exact  --  if False, find N-1 bins for prime numbers
     """
     if ndim == 0: return []
-    if N == 0: return [0] if ndim else [0]*ndim
+    if N == 0: return [0]*ndim if ndim else [0]
     from itertools import chain
     from mystic.tools import random_state
     random = random_state().random
